@@ -41,6 +41,14 @@ def _collect_env(run, res, stats):
             faults['second_shell_instance_in_the_process'] = faults.get('second_shell_instance_in_the_process', 0) + 1
             if r.get('holder') not in (None, '-1'):
                 probes['sibling_instance_holds_a_claim_of_its_own'] = probes.get('sibling_instance_holds_a_claim_of_its_own', 0) + 1
+        elif k == 'rebind':
+            faults['client_replaces_its_out-event_handlers'] = faults.get('client_replaces_its_out-event_handlers', 0) + 1
+        elif k == 'early_use_done':
+            faults['calls_before_FinalConstruct'] = faults.get('calls_before_FinalConstruct', 0) + 1
+        elif k == 'handler_asked_identifiers':
+            probes['out-event_handler_re-entered_the_shell'] = probes.get('out-event_handler_re-entered_the_shell', 0) + 1
+        elif k == 'prototype_locator_destroyed':
+            faults['prototype_locator_destroyed_after_construction'] = faults.get('prototype_locator_destroyed_after_construction', 0) + 1
         elif k == 'sibling_check':
             probes['sibling_instance_inspected_after_the_run'] = probes.get('sibling_instance_inspected_after_the_run', 0) + 1
 
